@@ -34,6 +34,7 @@ CONSTANTS
   DropSet = {%(drop)s}
   SrcSet = {%(src)s}
   LateSet = {%(late)s}
+  QuarSet = {%(quar)s}
   Devs = {%(devs)s}
   Gen = %(gen)s
 %(tail)s
@@ -42,7 +43,7 @@ CONSTANTS
 MC_TAIL = "VIEW View\nINVARIANTS NoViolation TypeOK\n"
 GEN_TAIL = "CHECK_DEADLOCK FALSE\n"
 TRACE_TAIL = "CHECK_DEADLOCK FALSE\nPOSTCONDITION Post\n"
-ALL_RCPTS = ("a1", "a2", "cv", "nl", "idn")
+ALL_RCPTS = ("a1", "a2", "cv", "nl", "idn", "idn_ace")
 ALL_DEVS = ("RcptConverted", "RcptNotCleared", "LMTPWireKey")
 PIPE_DEVS = ("RewriteCollision",)
 PIPE_KEEP = {"Cfg", "Txn", "Ret", "Statuses", "End"}
@@ -90,9 +91,9 @@ def q(xs):
 
 
 def cfg(spec="Spec", kinds=("remote", "lmtp"), rcpts=ALL_RCPTS, maxlist=3, maxtxns=4,
-        data=("ok", "temp", "perm"), drop=(0, 1, 2), src=("ok", "noopen", "readfail", "reset"), late=(1, 2), devs=(), gen=False, tail=MC_TAIL):
+        data=("ok", "temp", "perm"), drop=(0, 1, 2), src=("ok", "noopen", "readfail", "reset"), late=(1, 2), quar=(), devs=(), gen=False, tail=MC_TAIL):
     return CFG % dict(spec=spec, kinds=q(kinds), rcpts=q(rcpts), maxlist=maxlist, maxtxns=maxtxns,
-                      data=q(data), drop=", ".join(str(d) for d in drop), src=q(src), late=", ".join(str(d) for d in late), devs=q(devs), gen="TRUE" if gen else "FALSE", tail=tail)
+                      data=q(data), drop=", ".join(str(d) for d in drop), src=q(src), late=", ".join(str(d) for d in late), quar=", ".join(str(d) for d in quar), devs=q(devs), gen="TRUE" if gen else "FALSE", tail=tail)
 
 
 def open_findings():
@@ -129,9 +130,10 @@ def nontrivial(b):
     for t in b["txns"]:
         p = t["plan"]
         if p.get("drop", 3) < len(t["rcpts"]) or p.get("src", "ok") != "ok" or p.get("late", 0) > 0 or \
+                p.get("quar", 0) > 0 or \
                 any(v != "ok" for part in p.values() if isinstance(part, dict) for v in part.values()):
             return True
-        if len(set(t["rcpts"])) < len(t["rcpts"]) or any(r in ("nl", "idn", "cv") for r in t["rcpts"]):
+        if len(set(t["rcpts"])) < len(t["rcpts"]) or any(r in ("nl", "idn", "cv", "idn_ace") for r in t["rcpts"]):
             return True
     return False
 
@@ -177,10 +179,10 @@ def run_targets(ctx, replay_obj, binary, known, thorough, skip_mc):
     open_devs = sorted({d for f in known for d in devs_of(f) if d in ALL_DEVS})
     if not replay_obj and not skip_mc:
         if thorough:
-            runs = [("mc", cfg(maxlist=3, maxtxns=4))]
+            runs = [("mc", cfg(maxlist=3, maxtxns=4, quar=(1, 2, 3)))]
         else:
-            runs = [("mc-l2", cfg(maxlist=2, maxtxns=4)),
-                    ("mc-l3", cfg(rcpts=("a1", "nl", "idn"), maxlist=3, maxtxns=4))]
+            runs = [("mc-l2", cfg(maxlist=2, maxtxns=4, quar=(1, 2))),
+                    ("mc-l3", cfg(rcpts=("a1", "nl", "idn"), maxlist=3, maxtxns=4, quar=(2, 3)))]
         states = trans = depth = 0
         for name, text in runs:
             r = ctx.tlc_expect_ok("RcptStatus", None, name=name, workers=8, timeout=3000, cfg_text=text, heap="4g")
@@ -216,6 +218,17 @@ def run_targets(ctx, replay_obj, binary, known, thorough, skip_mc):
         # transport faults: body source fails / connection reset in mid-DATA / a RCPT reply overdue
         focus += [("gen-faults", cfg(rcpts=("a1", "a2"), maxlist=3 if thorough else 2, maxtxns=1, data=("ok",),
                                      drop=(), gen=True, tail=GEN_TAIL))]
+        # the message is put in quarantine after list position q (a body-stage check), some RCPTs refused:
+        # remote reports its own refusal for exactly the recipients it accepted, target.lmtp ignores the flag
+        focus += [("gen-quar", cfg(kinds=("remote",), rcpts=("a1", "a2", "idn"), maxlist=3 if thorough else 2,
+                                   maxtxns=2 if thorough else 1, data=("ok",), drop=(), src=("ok",), late=(),
+                                   quar=(1, 2, 3), gen=True, tail=GEN_TAIL)),
+                  ("gen-quar-lmtp", cfg(kinds=("lmtp",), rcpts=("a1",), maxlist=2, maxtxns=1, data=("ok",), drop=(),
+                                        src=("ok",), late=(), quar=(1, 2), gen=True, tail=GEN_TAIL))]
+        # two recipients that differ as given and coincide on the wire of a next hop without SMTPUTF8
+        # (U-label and A-label of the same IDN address), LMTP answering per recipient
+        focus += [("gen-twins", cfg(kinds=("lmtp",), rcpts=("idn", "idn_ace"), maxlist=3 if thorough else 2, maxtxns=1,
+                                    data=("ok",), drop=(1,), src=("ok",), late=(), quar=(), gen=True, tail=GEN_TAIL))]
         if thorough:
             focus += [("gen-remote3", cfg(kinds=("remote",), rcpts=("a1", "idn"), maxlist=1, maxtxns=3,
                                           data=("ok", "perm"), gen=True, tail=GEN_TAIL)),
@@ -225,7 +238,7 @@ def run_targets(ctx, replay_obj, binary, known, thorough, skip_mc):
         jobs = [(name, dict(workers=2, timeout=1800, cfg_text=text, heap="3g")) for name, text in focus]
         jobs.append(("sim", dict(workers=1, timeout=1800, simulate=n, depth=80, heap="3g",
                                  cfg_text=cfg(maxlist=3, maxtxns=4, data=("ok", "temp"), drop=(1,), late=(1,),
-                                              gen=True, tail=GEN_TAIL))))
+                                              quar=(2,), gen=True, tail=GEN_TAIL))))
         # independent TLC runs: side by side
         with concurrent.futures.ThreadPoolExecutor(max_workers=len(jobs)) as ex:
             futs = {name: ex.submit(ctx.tlc, "RcptStatus", None, name=name, **kw) for name, kw in jobs}
@@ -241,7 +254,11 @@ def run_targets(ctx, replay_obj, binary, known, thorough, skip_mc):
                 got = [b for b in got if b["txns"][0]["plan"]["src"] != "ok" or b["txns"][0]["plan"]["late"] > 0]
             if name == "gen-lmtp-drop":     # keep the behaviours in which the break really happens
                 got = [b for b in got if b["txns"][0]["plan"]["drop"] < len(b["txns"][0]["rcpts"])]
-            cap = 90 if name == "gen-faults" else 300
+            if name in ("gen-quar", "gen-quar-lmtp"):   # keep the behaviours with a quarantined transaction
+                got = [b for b in got if any(t["plan"]["quar"] > 0 for t in b["txns"])]
+            if name == "gen-twins":         # keep the behaviours with both spellings in one list
+                got = [b for b in got if {"idn", "idn_ace"} <= set(b["txns"][0]["rcpts"])]
+            cap = {"gen-faults": 90, "gen-quar": 100, "gen-quar-lmtp": 20, "gen-twins": 100}.get(name, 300)
             if name != "sim" and not thorough and len(got) > cap:
                 got = vlib.sample(ctx.rng, got, cap)
             behs += got
@@ -481,7 +498,11 @@ def run(ctx, replay):
     ctx.cov["exhaustive"] = False
     ctx.assumptions += [
         "next hops are scripted raw SMTP/LMTP servers on loopback TCP following a fault plan per transaction",
-        "addresses are five fixed strings (ASCII x2, local-part case variant, non-ASCII local part, IDN domain)",
+        "addresses are six fixed strings (ASCII x2, local-part case variant, non-ASCII local part, IDN domain as "
+        "U-label and the same address as A-label); the A-label spelling is used in target.lmtp lists only (remote "
+        "opens one connection per domain string, the model has one per next hop)",
+        "quarantine: MsgMetadata.Quarantine is set by the driver right after the AddRcpt call of a list position, as a "
+        "body-stage check would; a target's own refusal of a quarantined message counts as a truthful failure",
         "duplicates: an address accepted n times may be reported 1..n times (weaker reading)",
         "pipeline: real msgpipeline.New + replace_rcpt over a static table, one scripted partial target that accepts "
         "every recipient; a supplied address rewritten to n addresses may be reported 1..n times",
@@ -501,7 +522,9 @@ META = {
                  "recorded traces validated against RcptStatusTrace.tla (predicates in RcptStatusObs.tla)",
     "text": "TLC visits every recipient list (<=3, over ASCII, case variant, non-ASCII local part, IDN domain, "
             "duplicates), next hop with/without SMTPUTF8, SMTP and LMTP answers, failures of MAIL/RCPT/DATA/final dot/"
-            "per-recipient LMTP replies and histories of up to 4 transactions over the per-domain cached connections, "
+            "per-recipient LMTP replies, the message put in quarantine after any list position, two spellings of one "
+            "recipient that coincide on the wire (U-label / A-label) and histories of up to 4 transactions over the "
+            "per-domain cached connections, "
             "and checks keys(statuses) = accepted recipients as given (none for another address, none missing, not more "
             "often than accepted, each with the next hop's answer for that recipient) in every state; the same "
             "predicates are evaluated by TLC over traces recorded from the real targets. Pipeline: every pair of "
